@@ -91,8 +91,15 @@ def nontrivial(cfg, op, o):
 
 
 def explore(tier, seed, model_ok=True, focus=False):
-    return explore_farm("C07", tier, seed, monitor, nontrivial, RULE, model_ok, focus)
+    """dex/farm histories, then farm-with-locked-rewards histories"""
+    from props.farm_locked_common import explore_locked, merge_into, monitors_c07, nontrivial_c07
+    ex = explore_farm("C07", tier, seed, monitor, nontrivial, RULE, model_ok, focus)
+    ex2 = explore_locked("C07", tier, seed, monitors_c07, nontrivial_c07, RULE, model_ok, focus, scale=0.5)
+    return merge_into(ex, ex2)
 
 
 def replay(data):
+    if data.get("replay", {}).get("system") == "farm-locked":
+        from props.farm_locked_common import replay_locked, monitors_c07
+        return replay_locked(data, monitors_c07)
     return replay_farm(data, monitor)
